@@ -78,14 +78,15 @@ class HObjList:
 
 
 class ElemRef:
-    """element `idx` of an HObjList (part='pair' is the [object, memo] two-list itself, part='obj' the object)"""
-    __slots__ = ("oid", "idx", "part")
+    """element `idx` of an HObjList (part='pair' is the [object, memo] two-list itself, part='obj' the object).
+    prefix/clsname address an object reachable from the element through object-typed fields (r.csvpath.…)."""
+    __slots__ = ("oid", "idx", "part", "prefix", "clsname")
 
-    def __init__(self, oid, idx, part="obj"):
-        self.oid, self.idx, self.part = oid, idx, part
+    def __init__(self, oid, idx, part="obj", prefix="", clsname=None):
+        self.oid, self.idx, self.part, self.prefix, self.clsname = oid, idx, part, prefix, clsname
 
     def __repr__(self):
-        return f"ElemRef({self.oid},{self.idx},{self.part})"
+        return f"ElemRef({self.oid},{self.idx},{self.part},{self.prefix})"
 
 
 class HRec:
@@ -406,12 +407,19 @@ class Exec:
 
     SORTS = {"int": lambda: z3.IntSort(), "bool": lambda: z3.BoolSort(), "str": lambda: z3.StringSort(), "real": lambda: z3.RealSort()}
 
-    def elem_field_array(self, lst, attr):
-        if attr in lst.fields:
-            return lst.fields[attr]
+    def elem_class_names(self, lst, er=None):
+        cn = er.clsname if (er is not None and er.clsname) else None
+        if cn:
+            cf = self.facts.cls(cn)
+            return [c.name for c in cf.mro] if cf is not None else [cn]
+        return [c.name for c in lst.cf.mro] if lst.cf is not None else [lst.clsname]
+
+    def elem_field_array(self, lst, attr, er=None):
+        key = (er.prefix if er is not None else "") + attr
+        if key in lst.fields:
+            return lst.fields[key]
         typ = None
-        names = [c.name for c in lst.cf.mro] if lst.cf is not None else [lst.clsname]
-        for nm in names:
+        for nm in self.elem_class_names(lst, er):
             typ = self.contract.class_fields.get(nm, {}).get(attr)
             if typ is not None:
                 break
@@ -419,6 +427,9 @@ class Exec:
             typ = "optbool"
         if typ is None:
             return None
+        if typ.startswith("obj:"):
+            return ("obj", typ[4:])
+        attr = key
         srt = self.SORTS[typ]() if typ in self.SORTS else (Val if (typ in TYPE_TAGS or typ in ("opaque", "exception")) else None)
         if srt is None:
             raise OutsideSubset(f"field {attr}:{typ} of list elements is not scalar")
@@ -435,7 +446,7 @@ class Exec:
 
     def elem_get(self, er, attr):
         lst = self.heap[er.oid]
-        names = [c.name for c in lst.cf.mro] if lst.cf is not None else [lst.clsname]
+        names = self.elem_class_names(lst, er)
         for nm in names:
             tgt = self.contract.backrefs.get(f"{nm}.{attr}")
             if tgt is not None:
@@ -445,10 +456,12 @@ class Exec:
                     return self.eval(ast.parse(path_expr(tgt), mode="eval").body)
                 finally:
                     self.locals, self.spec_mode = saved
-        fa = self.elem_field_array(lst, attr)
+        fa = self.elem_field_array(lst, attr, er)
         if fa is None:
             return None
         typ, arr = fa
+        if typ == "obj":
+            return ElemRef(er.oid, er.idx, "obj", er.prefix + attr + ".", arr)
         t = z3.Select(arr, er.idx)
         if typ in self.SORTS:
             return SV(typ, t)
@@ -456,10 +469,13 @@ class Exec:
 
     def elem_set(self, er, attr, value):
         lst = self.heap[er.oid]
-        fa = self.elem_field_array(lst, attr)
+        fa = self.elem_field_array(lst, attr, er)
         if fa is None:
             raise OutsideSubset(f"no declared type for field {attr} of {lst.clsname} list elements")
         typ, arr = fa
+        if typ == "obj":
+            raise OutsideSubset("store of an object into a list-element field")
+        attr = er.prefix + attr
         if not isinstance(value, SV):
             raise OutsideSubset("reference stored in a list-element field")
         if typ in self.SORTS:
@@ -629,18 +645,19 @@ class Exec:
             lst = self.heap[base.oid]
             if base.part == "pair":
                 raise OutsideSubset("attribute of an [expr, memo] pair")
+            ecf = self.facts.cls(base.clsname) if base.clsname else lst.cf
             if attr == "__class__":
-                return ClassRef(lst.clsname, lst.cf)
+                return ClassRef(base.clsname or lst.clsname, ecf)
             v = None
-            if lst.cf is not None:
-                lk = self.facts.lookup(lst.cf, attr)
+            if ecf is not None:
+                lk = self.facts.lookup(ecf, attr)
                 if lk and lk[0] == "property":
                     return self.call_unit(lk[1], base, [], {}, prop=True)
                 if lk and lk[0] in ("method", "classmethod", "staticmethod"):
                     return ("boundmethod", base, lk[1])
             v = self.elem_get(base, attr)
             if v is None:
-                if lst.cf is not None and self.facts.lookup(lst.cf, attr) is None and attr not in self.contract.extra_attrs.get(lst.cf.name, []):
+                if ecf is not None and self.facts.lookup(ecf, attr) is None and attr not in self.contract.extra_attrs.get(ecf.name, []):
                     if self.spec_mode and not self.effect_mode:
                         raise OutsideSubset(f"spec reads missing attribute {attr}")
                     raise PyRaise("AttributeError", f"{lst.clsname}.{attr}")
@@ -779,7 +796,7 @@ class Exec:
     def identical(self, a, b):
         if isinstance(a, ElemRef) or isinstance(b, ElemRef):
             if isinstance(a, ElemRef) and isinstance(b, ElemRef):
-                if a.oid != b.oid or a.part != b.part:
+                if a.oid != b.oid or a.part != b.part or a.prefix != b.prefix:
                     return z3.BoolVal(False)
                 return a.idx == b.idx
             other = b if isinstance(a, ElemRef) else a
@@ -1626,6 +1643,14 @@ class Exec:
             if nm == "is_fresh":
                 v = self.eval(n.args[0])
                 return B(z3.BoolVal(isinstance(v, Ref) and v.oid not in self.old_state["heap"]))
+            if nm == "prefix_sum":
+                # prefix_sum(objlist, 'field', k) = sum of field over elements [0, k)   (recursive spec function, unfolded by the solver)
+                lref = self.eval(n.args[0])
+                fld = n.args[1].value
+                k = ops.as_int(self.eval(n.args[2]))
+                lst = self.heap[lref.oid]
+                typ, arr = self.elem_field_array(lst, fld)
+                return I(ops.prefix_sum(arr, k))
             if nm == "strictly_increasing":
                 v = self.eval(n.args[0])
                 o = self.heap[v.oid]
@@ -1715,7 +1740,7 @@ class Exec:
         if isinstance(v, ElemRef) and self.old_state is not None and v.oid in self.old_state["heap"]:
             c = self.old_state["heap"][v.oid].clone()
             c.orig = v.oid
-            return ElemRef(self.alloc(c).oid, v.idx, v.part)
+            return ElemRef(self.alloc(c).oid, v.idx, v.part, v.prefix, v.clsname)
         return v
 
     def in_old(self, thunk):
@@ -1829,7 +1854,8 @@ class Exec:
             base = self.eval(t.value)
             if isinstance(base, ElemRef):
                 lst = self.heap[base.oid]
-                st = self.facts.setter(lst.cf, t.attr) if lst.cf is not None else None
+                ecf_ = self.facts.cls(base.clsname) if base.clsname else lst.cf
+                st = self.facts.setter(ecf_, t.attr) if ecf_ is not None else None
                 if st is not None:
                     self.call_unit(st, base, [v], {}, prop=True)
                 else:
@@ -2091,7 +2117,10 @@ class Exec:
         return o.length if isinstance(o, HObjList) else z3.Length(o.seq)
 
     def havoc_elem_field(self, lst, attr):
-        fa = self.elem_field_array(lst, attr)
+        if attr in lst.fields:
+            fa = lst.fields[attr]
+        else:
+            fa = self.elem_field_array(lst, attr)
         typ, arr = fa
         na = z3.Const(fresh_name(f"{lst.path}[*].{attr}"), arr.sort())
         if typ in TYPE_TAGS:
